@@ -100,9 +100,22 @@ def gen_case(rng, tier, idx):
     n = rng.randint(40, 140)
     rows = streams.make_rows(rng, n, rng.choice(["walk", "walk", "flat_runs", "spiky"]), step, mode, tf_s, max_gap_buckets=8)
     cut1 = rng.randint(n // 3, n - 10)
+    if tf is None and rng.random() < 0.3:
+        # all members on one shared member timeframe (one non-default manager for all of them); sometimes maintenance comes early,
+        # while the target is still warming up on the few collapsed candles
+        mtf = rng.choice(["T2", "T3", "T5"])
+        for c in cfgs:
+            c["kw"]["timeframe"] = mtf
+        if rng.random() < 0.5:
+            cut1 = rng.randint(8, 20)
+        if rng.random() < 0.5:
+            # one member carries its own fill flag (ignored inside a Hexital, where the Hexital-level setting rules): the others, sharing
+            # its timeframe, must not inherit it whatever the registration order; needs gaps to be visible
+            rng.choice(cfgs)["kw"]["timeframe_fill"] = True
+            rows = streams.make_rows(rng, n, "walk", 60, "gaps", 300, max_gap_buckets=6)
     ops = [rng.choice(["purge", "recalculate", "remove", "purge+calc"]) for _ in range(rng.randint(1, 3))]
     return {"cfgs": cfgs, "pair_kind": kind, "rows": rows, "tf": tf, "cut1": cut1, "ops": ops, "chunk": rng.choice([1, 1, 3, 7]),
-            "shared_list": tf is None and rng.random() < 0.25}
+            "shared_list": tf is None and rng.random() < 0.25 and not any(c["kw"].get("timeframe") for c in cfgs)}
 
 
 def col(hx, name):
